@@ -151,6 +151,34 @@ var dayRules = ev.Register(&ev.P[dayCase]{
 				return fmt.Errorf("%s sect %d: year star index %d, but year in force %d gives %d (2024 = index 2, one step back per year)", day, sect, got, yif[sect], want)
 			}
 		}
+		// one reused object asked in interleaved order answers like fresh objects (a memo keyed on too little shows here)
+		fresh := func(kind string, sect int) int {
+			o := noon(j)
+			if kind == "Y" {
+				return o.GetYearNineStarBySect(sect).GetIndex()
+			}
+			return o.GetMonthNineStarBySect(sect).GetIndex()
+		}
+		ru := noon(j)
+		for a := 1; a <= 3; a++ {
+			for b := 1; b <= 3; b++ {
+				seq := []struct {
+					k string
+					s int
+				}{{"M", a}, {"Y", b}, {"M", b}, {"Y", a}}
+				for _, q := range seq {
+					var got int
+					if q.k == "Y" {
+						got = ru.GetYearNineStarBySect(q.s).GetIndex()
+					} else {
+						got = ru.GetMonthNineStarBySect(q.s).GetIndex()
+					}
+					if want := fresh(q.k, q.s); got != want {
+						return fmt.Errorf("%s: on a reused Lunar, %s-star under sect %d (asked after other sects) is index %d, a fresh object gives %d", day, q.k, q.s, got, want)
+					}
+				}
+			}
+		}
 		if g, w := calendar.NewLunarYear(l.GetYear()).GetNineStar().GetIndex(), yearStarWant(l.GetYear()); g != w {
 			return fmt.Errorf("LunarYear(%d).GetNineStar index %d, want %d", l.GetYear(), g, w)
 		}
